@@ -141,4 +141,8 @@ def straightGrid (R : Rot) (left y0 : Rat) (n : Nat) (h0 h1 : Rat) (H : Nat) : O
     let vmap := linspace (-h0) h1 H
     some (vmap.map fun v => xs.map fun x => R.apply (x, y0 + v))
 
+/-- degree of the polynomial fitted through a baseline of `n` points for `INTERP = poly > 0`: two points give a straight line; otherwise
+the configured degree, but never more than the points determine (`min(self.poly, n - 1)`) -/
+def fitDegree (poly n : Nat) : Nat := if n > 2 then min poly (n - 1) else 1
+
 end Crop
